@@ -67,16 +67,18 @@ CLAIMED["C15"] = dict(
 CLAIMED["C03"] = dict(
     text="Lean theorems, each for EVERY width n >= 1 and all operand values, against exact integer arithmetic: unsigned and signed "
          "+ and - (result exact unless the overflow flag is set; flag <=> exact result not representable), unary - (panics exactly "
-         "on MIN), unsigned * (array multiplier = full product; flag <=> product >= 2^n), < and > (unsigned, signed), == / !=, and "
-         "every cast (target width; congruent to the source value mod 2^k; no panic). PARTIAL: signed *, / and % (unsigned, signed), "
-         "<< / >> and the multiplication-by-literal rewrite are stated (C03_*_Statement) but not yet proved. All operators, all "
+         "on MIN), unsigned * (array multiplier = full product; flag <=> product >= 2^n), unsigned / and % (the restoring divider returns the "
+         "Euclidean quotient and remainder for every non-zero divisor), signed / and % (quotient rounded towards zero, remainder "
+         "with the sign of the dividend, for every non-zero divisor except MIN / -1), < and > (unsigned, signed), == / !=, and "
+         "every cast (target width; congruent to the source value mod 2^k; no panic). PARTIAL: signed *, << / >> and the "
+         "multiplication-by-literal rewrite are stated (C03_*_Statement) but not yet proved. All operators, all "
          "types, {var op var, var op const, const op var} and all casts are additionally checked by behavioural correspondence "
          "(compiled one-line programs vs the Lean Arith model) and against an independent Python big-integer oracle: all 2^16 "
          "operand pairs for u8/i8 arithmetic, boundary-directed and random operands for wider types.",
     design_ref="DESIGN.md §6 C03",
     note="trusted: Lean kernel; axioms propext/Classical.choice/Quot.sound; Model/Arith.lean is a value-level model of the wiring in "
          "circuit.rs:1047-1248 / compile.rs:838-1103 tied by behavioural correspondence (not structural); the Python oracle",
-    technique="Lean 4 proof (ripple/row invariants, all widths) + behavioural correspondence + exhaustive 8-bit tables",
+    technique="Lean 4 proof (ripple/row/divider-step invariants, all widths) + behavioural correspondence + exhaustive 8-bit tables",
 )
 
 CLAIMED["C09"] = dict(
